@@ -6,6 +6,7 @@ import (
 	"io"
 	"os"
 	"sort"
+	"strings"
 
 	"github.com/semihalev/twig"
 	"simrt"
@@ -14,7 +15,7 @@ import (
 // C01 — rendering is repeatable and independent of everything rendered before.
 
 type c01Op struct {
-	K    string `json:"k"` // reg regbad rereg render renderto parse gc debug compile
+	K    string `json:"k"` // reg regbad rereg render renderto parse gc debug compile lonly lmiss alias hold renderheld
 	E    int    `json:"e"`
 	P    int    `json:"p"`
 	Name string `json:"name,omitempty"`
@@ -76,8 +77,8 @@ func (propC01) Gen(seed uint64, ex map[string]bool) interface{} {
 	reg := map[[2]int]bool{}
 	for i := 0; i < nops; i++ {
 		e, p := r.N(sc.Engines), r.N(np)
-		switch c := r.N(20); {
-		case c < 4 || !reg[[2]int{e, p}]:
+		switch c := r.N(26); {
+		case c < 4 || (!reg[[2]int{e, p}] && r.P(90)):
 			sc.Ops = append(sc.Ops, c01Op{K: "reg", E: e, P: p})
 			reg[[2]int{e, p}] = true
 		case c < 12:
@@ -101,8 +102,23 @@ func (propC01) Gen(seed uint64, ex map[string]bool) interface{} {
 			sc.Ops = append(sc.Ops, c01Op{K: "gc", Mode: r.N(2)})
 		case c < 19:
 			sc.Ops = append(sc.Ops, c01Op{K: "debug", E: e, On: r.P(50)})
-		default:
+		case c < 20:
 			sc.Ops = append(sc.Ops, c01Op{K: "compile", E: e, P: p})
+		case c < 21:
+			// make a program available through the loader only (no registration)
+			sc.Ops = append(sc.Ops, c01Op{K: "lonly", E: e, P: p})
+			reg[[2]int{e, p}] = true
+		case c < 22:
+			sc.Ops = append(sc.Ops, c01Op{K: "lmiss", E: e, Name: fmt.Sprintf("missing_%d", r.N(3)), Src: fmt.Sprintf("(late %d)", i)})
+		case c < 23:
+			// the same *Template registered under a second name, possibly on another engine
+			pr := sc.Progs[p]
+			sc.Ops = append(sc.Ops, c01Op{K: "alias", E: e, P: p, Name: pr.Templates[r.N(len(pr.Templates))].Name, Mode: r.N(sc.Engines)})
+		case c < 24:
+			pr := sc.Progs[p]
+			sc.Ops = append(sc.Ops, c01Op{K: "hold", E: e, P: p, Name: pr.Templates[r.N(len(pr.Templates))].Name})
+		default:
+			sc.Ops = append(sc.Ops, c01Op{K: "renderheld", E: e, P: p, CV: r.N(3)})
 		}
 	}
 	return sc
@@ -115,6 +131,14 @@ type c01Engine struct {
 	debug  bool
 	hub    *spyHub
 	base   map[*twig.Template]string // tree dump taken when the template was first seen in the cache
+	held   []c01Held                 // *Template handles obtained from Load and kept by the "application"
+}
+
+type c01Held struct {
+	t    *twig.Template
+	src  string
+	cur  map[string]string // the engine's templates when the handle was taken (for includes etc.)
+	dump string
 }
 
 func newC01Engine() *c01Engine {
@@ -210,6 +234,76 @@ func (propC01) Run(scI interface{}) *Outcome {
 			if err := ce.e.RegisterString(op.Name, op.Src); err == nil {
 				ce.cur[op.Name] = op.Src
 				ce.loader.SetTemplate(op.Name, op.Src)
+			}
+		case "lonly":
+			for _, t := range pr.Templates {
+				src := t.Src()
+				if _, err := twig.New().ParseTemplate(src); err == nil { // same acceptance rule as a registration
+					ce.cur[t.Name] = src
+					ce.loader.SetTemplate(t.Name, src)
+					// an entry cached earlier under this name stays authoritative (auto-reload is off): only
+					// names the engine has not cached yet are affected
+					if old, ok := twig.VerifCached(ce.e)[t.Name]; ok {
+						_, osrc, _, _ := twig.VerifTemplateMeta(old)
+						ce.cur[t.Name] = osrc
+						ce.loader.SetTemplate(t.Name, osrc)
+					}
+				}
+			}
+		case "lmiss":
+			if _, cached := twig.VerifCached(ce.e)[op.Name]; !cached {
+				ce.cur[op.Name] = op.Src
+				ce.loader.SetTemplate(op.Name, op.Src)
+			}
+		case "alias":
+			if t, err := ce.e.Load(op.Name); err == nil {
+				dst := engs[op.Mode%len(engs)]
+				alias := "alias_of_" + op.Name
+				dst.e.RegisterTemplate(alias, t)
+				_, src, _, _ := twig.VerifTemplateMeta(t)
+				dst.cur[alias] = src
+				dst.loader.SetTemplate(alias, src)
+			}
+		case "hold":
+			if t, err := ce.e.Load(op.Name); err == nil {
+				_, src, _, _ := twig.VerifTemplateMeta(t)
+				cp := map[string]string{}
+				for k, v := range ce.cur {
+					cp[k] = v
+				}
+				d, _ := twig.VerifTreeDump(t)
+				ce.held = append(ce.held, c01Held{t: t, src: src, cur: cp, dump: d})
+			}
+		case "renderheld":
+			if len(ce.held) == 0 {
+				break
+			}
+			h := ce.held[len(ce.held)-1]
+			ctx := BuildCtx(pr.Ctx.Variant(op.CV), 0)
+			sp := newSpies()
+			ce.hub.per[0] = sp
+			got := observe(sp, func() (string, error) { return h.t.Render(ctx) })
+			// the handle is the template as it was loaded: it renders its own source, with the engine's CURRENT
+			// other templates (includes are resolved at render time)
+			var want Obs
+			withPristine(w, func() {
+				pe, hub := ce.pristine()
+				pt, err := pe.ParseTemplate(h.src)
+				if err != nil {
+					want = Obs{Class: "error", Err: err.Error()}
+					return
+				}
+				want = observe(hub.per[0], func() (string, error) { return pt.Render(BuildCtx(pr.Ctx.Variant(op.CV), 0)) })
+			})
+			o.Probes["renders_compared"]++
+			o.Probes["held_template_renders"]++
+			if d, _ := twig.VerifTreeDump(h.t); d != h.dump {
+				return fail("O2-cached-tree", "a loaded template's tree was altered after it was handed out",
+					fmt.Sprintf("op #%d: template held since an earlier Load\n was: %s\n now: %s", oi, tail(h.dump, 500), tail(d, 500)))
+			}
+			if got.Key() != want.Key() && !strings.Contains(h.src, "./") {
+				return fail("O1-pristine-replica", "render of a template obtained from Load differs from its source on a fresh engine",
+					fmt.Sprintf("op #%d engine %d\n held template source %q\n history engine: %s\n fresh engine:   %s", oi, op.E, tail(h.src, 300), got, want))
 			}
 		case "gc":
 			w.GC(op.Mode)
